@@ -14,7 +14,7 @@ def failing_handlers(ctx):
     """Concrete call sites: the functions whose skeleton uses an inode after its lock was released."""
     f = os.path.join(ctx.scratch, "sk.lean")
     open(f, "w").write("import GoNfsd.Gen.Skeleton\nopen GoNfsd.Model.Skeleton GoNfsd.Gen.Skeleton\n"
-                       "#eval handlers.filterMap fun (n, h) => if check h then none else some n\n")
+                       "#eval (handlers ++ mutexHandlers).filterMap fun (n, h) => if check h then none else some n\n")
     rc, out = vlib.run(["lake", "build", "GoNfsd.Gen.Skeleton"], cwd=vlib.LEAN, timeout=600)
     if rc != 0:
         return None
@@ -37,6 +37,12 @@ def run(ctx):
             if not proved:
                 bad = failing_handlers(ctx)
                 for fn in (bad or []):
+                    if fn.startswith("mu_"):
+                        ctx.add_violation("unguarded-access:" + fn,
+                                          "method %s touches a field guarded by the struct's mutex while the mutex is not held" % fn[3:],
+                                          {"how": "regenerated mutex skeleton (Gen/Skeleton.lean, mutexHandlers) abstractly executed by Model/Skeleton.lean",
+                                           "call_site": fn[3:]})
+                        continue
                     ctx.add_violation("use-after-release:" + fn,
                                       "function %s uses an inode variable after the commit/abort that released its lock" % fn,
                                       {"how": "regenerated control skeleton (Gen/Skeleton.lean) abstractly executed by Model/Skeleton.lean",
